@@ -48,7 +48,7 @@ func (r *QuotientRing) Polynomial(coefs map[[2]uint]ff.Element) *Polynomial {
 	m := make(map[[2]uint]ff.Element, len(coefs))
 	for d, e := range coefs {
 		if e.IsNonzero() {
-			m[d] = e
+			m[d] = e.Copy()
 		}
 	}
 	out := &Polynomial{baseRing: r, coefs: m}
